@@ -62,3 +62,13 @@ Definition dead_heat (winners_in_book declared : Z) (previous : option Z) : opti
 Definition cleared (tb : tiebreak) (profits : list Z) (rate_n rate_d : Z) : Z * Z * Z :=
   let p := sumZ profits in
   (p, rnd tb (zmax (p * rate_n) 0) rate_d, Z.of_nat (length profits)).
+
+(* Blotter.process_closed_market: which runner of the closing book settles an order.  The code walks every runner of the book and copies the status
+   of each one whose (selection_id, handicap) equals the order's - no break, so with a duplicated key the last one listed wins; an order whose key
+   is not in the book keeps what it had (None: profit 0).  Keys: selection id, handicap in tenths. *)
+Definition runner_key_eqb (k1 k2 : Z * Z) : bool := (fst k1 =? fst k2) && (snd k1 =? snd k2).
+Fixpoint closed_result (runners : list (Z * Z * result)) (k : Z * Z) (acc : result) : result :=
+  match runners with
+  | nil => acc
+  | cons (k', r) rest => closed_result rest k (if runner_key_eqb k k' then r else acc)
+  end.
